@@ -65,6 +65,14 @@ def unjustified(I, term, facts, depth=0, out=None):
         return out
     if k in ('load', 'addr', 'call', 'opaque'):
         return out
+    if k == 'app' and term[1] == 'round_up' and len(term) == 4:
+        # (n + (d - 1)) & !(d - 1): the addition inside the idiom can wrap unless it was a checked_add / the operand is bounded
+        n_, d_ = term[2], term[3]
+        okr = any(f[0] == 'nooverflow' and f[1] == 'add' and n_ in f[2:] for f in facts) \
+            or any(f[0] == 'is' and f[2] in ('Some', 'Ok', 'Continue') and any(isinstance(t, tuple) and t and t[0] == 'app' and t[1] == 'checked_add' and n_ in t[2:] for t in subterms(f[1])) for f in facts) \
+            or (n_[0] == 'app' and n_[1] in ('size', 'len')) or is_c(n_)
+        if not okr:
+            out.append(term)
     if k == 'app' and term[1] in ('add', 'mul', 'shl', 'pow', 'wadd'):
         a = term[2]
         b = term[3] if len(term) > 3 else None
@@ -101,7 +109,7 @@ def sinks(I, r):
                 yield e, 'set_len', e.args[1]
             elif (e.callee.endswith('::reserve') or e.callee.endswith('::reserve_exact') or e.callee.endswith('::try_reserve') or e.callee.endswith('::try_reserve_exact')) and e.args:
                 yield e, 'reserve(additional)', e.args[-1]
-            elif e.callee.endswith('Layout::from_size_align') and e.args:
+            elif (e.callee.endswith('Layout::from_size_align') or e.callee.split('::')[-1] == 'layout_from_size_align') and e.args:
                 # the validating constructor sees only the product: a wrapped product is a valid (small) size
                 yield e, 'Layout::from_size_align(size)', e.args[0]
             elif e.callee.endswith('alloc_layout') or e.callee.endswith('alloc_layout_fast') or e.callee.endswith('Alloc::alloc') or e.callee.endswith('Alloc::realloc') or e.callee == 'alloc::alloc::alloc' \
@@ -210,6 +218,43 @@ def check_unchecked_layouts(ctx, db, config, rule='R5', scope=lambda sp: sp.star
     return n
 
 
+def check_rawvec_failure_atomicity(ctx, db, config, rule='R6'):
+    """a refused size leaves the vector as it was: in every fallible RawVec function no store to cap / ptr may be followed by
+    an Err return (a capacity recorded before the allocation is known to have succeeded claims memory that was refused)"""
+    n = 0
+    for b in db.fn_bodies():
+        m = b['meta']
+        if b['kind'] != 'assoc_fn' or not (m.get('impl_adt') or '').endswith('raw_vec::RawVec') or 'Result<' not in (m.get('output') or ''):
+            continue
+        I, r = arena.run_fn(ctx, b['id'], config)
+        g = I.cfg(b)
+        fail_blocks = set()
+        for bi in g.reachable:
+            blk = b['blocks'][bi]
+            for s in blk['stmts']:
+                if s['k'] == 'assign' and s['place']['l'] == 0 and not s['place']['proj'] and s['rv']['k'] == 'agg' and s['rv'].get('variant', '').split('#')[0] in ('Err',):
+                    fail_blocks.add(bi)
+            t = blk['term']
+            if t['k'] == 'call' and t['dest']['l'] == 0 and (t['callee'].get('path') or '').endswith('FromResidual::from_residual'):
+                fail_blocks.add(bi)
+        sts = [e for e in r.events if len(e.stack) == 1 and e.kind == 'store' and e.lv[0] == 'fld' and e.lv[2].split('.')[-1] in ('cap', 'ptr') and 'RawVec' in e.lv[2]]
+        if not sts:
+            continue
+        n += 1
+        fn = arena.short(b['id'])
+        bad = [e for e in sts if g.reach([e.block]) & (fail_blocks - {e.block})]
+        # a store in the same block as, but before, the failing call also counts
+        for e in sts:
+            if e.block in fail_blocks:
+                bad.append(e)
+        if bad:
+            e = bad[0]
+            ctx.violation(rule, fn, 'store-then-Err:%s' % e.lv[2].split('.')[-1], '%s stores RawVec.%s on a path that can still return Err: after a refused request the vector would report a capacity / pointer it never obtained' % (fn, e.lv[2].split('.')[-1]), e.span)
+        else:
+            ctx.ok(rule, '%s: cap / ptr are stored only after the last point that can fail' % fn, 'CFG reachability from %d store(s) to %d failure block(s)' % (len(sts), len(fail_blocks)))
+    return n
+
+
 def run(ctx, config='rel-all'):
     db = ctx.db(config)
     ctx.assume("64-bit target only (alloc_guard's 32-bit branch is outside what is decided)", "RawVec invariant: cap * size_of::<T>() <= isize::MAX and len <= cap (established by the reserve family, rule R3)")
@@ -242,6 +287,8 @@ def run(ctx, config='rel-all'):
     ctx.extra['table_entries_used'] = len(used_table)
     check_reserve_post(ctx, db, config)
     nu = check_unchecked_layouts(ctx, db, config, 'R5')
+    nf = check_rawvec_failure_atomicity(ctx, db, config, 'R6')
+    ctx.floor('R6', nf, 1, 'fallible RawVec functions checked for failure atomicity')
     ctx.floor('R5', nu, 7, 'unchecked Layout construction sites')
     # ---- R4 the arena's own size check: a huge (but valid) Layout must be refused by the bumping function, i.e. the
     # bumped pointer is proved to stay inside [data, old finger] with the block below the old finger (shared with C01.O2)
